@@ -35,6 +35,11 @@ for d in sorted(glob.glob("/verif/seeded/C*")):
             exit=int(m.group(1)) if m else None,
             caught=bool(m and m.group(1) == "1"),
             violated=[f"{q}:{a[7:]}" for q, a in viols][:12])
+    notes = json.load(open("/verif/seeded/notes.json")) if os.path.exists("/verif/seeded/notes.json") else {}
+    if pid in notes:
+        meta["note"] = notes[pid]["note"]
+        if notes[pid].get("caught_by"):
+            meta["caught_by_other_check"] = notes[pid]["caught_by"]
     json.dump(meta, open(mpath, "w"), indent=1)
     c = meta.get("confirmed", {})
     dt = meta.get("detected", {})
